@@ -38,6 +38,7 @@ RULE = (
     "Non-trivial = base opened and the value is outside the accepted set; distinct = (gate, value)."
     ' Unknown locator kinds also as a second member of a list next to a usable pair; differencing VHDX handed over as a nameless file object while the parent exists; keystore modes that continue behind a line-boundary-like character with an accepted assignment.'
 )
+RULE += ' Round 10: zstd named with the feature bit clear; blanked structures (whole region 0x00 / 0xFF); parent_linkage in the missing-parent gate.'
 ASSUMPTIONS = [
     "QCOW2 compression types >= 2: the accepted set per the reader is {zlib, zstd-if-available}; the oracle is 'open raises or the "
     "first read of a compressed cluster raises, never returns bytes'",
